@@ -198,6 +198,22 @@ def run_c02(rep, tier, seed):
     grp.case(not (got is True and not isomorphic(r1, r2)), "two different reactions on the triangular prism compare equal (roles are only visible through 1-WL colours)",
              eq_body(r1, r2, None, None, False), sample="prism: two triangles formed/rungs broken vs hexagon formed/matching broken")
     grp.close()
+    # (3b) non-isomorphic skeletons that colour refinement cannot tell apart, random identifiers and insertion orders
+    from .scope import wl_equivalent_pairs
+    for kind in KINDS:
+        grp = Group(rep, f"C02/bounded/{kind}/1-WL-equivalent-non-isomorphic-skeletons")
+        for name, n, e1, e2 in wl_equivalent_pairs():
+            for v in range(12 if tier == "quick" else 80):
+                ra, rb = mk(kind, n, e1, [6] * n), mk(kind, n, e2, [6] * n)
+                if v:
+                    ra = ra.relabel(random_renaming(ra, rng, weird=False).get)
+                    rb = rb.relabel(random_renaming(rb, rng, weird=False).get)
+                oa, ob = (None, None) if not v else (rng.randrange(10**6), rng.randrange(10**6))
+                for x, y, ox, oy in ((ra, rb, oa, ob), (rb, ra, ob, oa)):
+                    a, b = build_real(x, ox), build_real(y, oy)
+                    got, err = safe(lambda: a == b)
+                    grp.case(got is not True, f"{name}: non-isomorphic graphs compare equal: {x.describe()} vs {y.describe()}", eq_body(x, y, ox, oy, False), sample=name)
+        grp.close()
     # (4) different classes never equal
     grp = Group(rep, "C02/bounded/cross-class-pairs-never-equal")
     for name, n, edges in skeletons()[:14]:
